@@ -111,7 +111,10 @@ def mps_config(ctx) -> None:
     for p in rets:
         r = strip_typed(p.retval)
         s = show(r)
-        good = (r[0] == "cmp" and r[1] == "==" and "difference" in s and s.endswith("set())")) or \
+        empty = ("call", "set", (), ())
+        good = (r[0] == "cmp" and r[1] == "==" and "difference" in s and
+                (strip_typed(r[2])[:2] == empty[:2] and not strip_typed(r[2])[2] or
+                 strip_typed(r[3])[:2] == empty[:2] and not strip_typed(r[3])[2])) or \
                (r[0] == "un" and r[1] == "not" and "difference" in s) or \
                (r[0] == "mcall" and r[2] in ("issubset",)) or (r[0] == "cmp" and r[1] == "<=")
         okr = okr and good and "_base_tag" in s
